@@ -5,6 +5,8 @@ package rules
 
 import (
 	"fmt"
+	"os"
+	"runtime/debug"
 	"sort"
 	"strings"
 
@@ -187,6 +189,9 @@ func Run(P *ir.Program, rs []*Rule, facts *Facts) *Result {
 		func() {
 			defer func() {
 				if e := recover(); e != nil {
+					if os.Getenv("MASTCHECK_TRACE") != "" {
+						debug.PrintStack()
+					}
 					c.Undecided(nil, "-", "panic", fmt.Sprintf("rule panicked: %v", e))
 				}
 			}()
